@@ -42,6 +42,8 @@ type pkg struct {
 	edges  map[[2]string][]string // edge -> sites
 	guards map[string]*guard
 	errors []string
+
+	lenient bool // scanned for Atomicity.v only: goto, fallthrough and local mutexes are followed
 }
 
 // default build configuration
@@ -123,7 +125,7 @@ func importName(is *ast.ImportSpec) string {
 	return strings.ReplaceAll(base, "-", "_")
 }
 
-func loadPkg(dir string, overlay map[string]string) (*pkg, error) {
+func loadPkg(dir string, overlay map[string]string, lenient bool) (*pkg, error) {
 	dir, err := filepath.Abs(dir)
 	if err != nil {
 		return nil, err
@@ -144,7 +146,7 @@ func loadPkg(dir string, overlay map[string]string) (*pkg, error) {
 			names[filepath.Base(k)] = true
 		}
 	}
-	p := &pkg{name: filepath.Base(dir), dir: dir, fset: token.NewFileSet(),
+	p := &pkg{name: filepath.Base(dir), dir: dir, fset: token.NewFileSet(), lenient: lenient,
 		imports: map[*ast.File]map[string]string{}, types: map[string]*ast.TypeSpec{}, typeFile: map[string]*ast.File{},
 		funcs: map[string]*ast.FuncDecl{}, declFile: map[*ast.FuncDecl]*ast.File{}, byName: map[string][]*ast.FuncDecl{},
 		pkgVars: map[string]*ast.ValueSpec{}, pkgNames: set{}, locks: map[string]string{}, trackedSet: set{},
@@ -166,7 +168,7 @@ func loadPkg(dir string, overlay map[string]string) (*pkg, error) {
 		if err != nil {
 			return nil, err
 		}
-		f, err := parser.ParseFile(p.fset, path, data, parser.ParseComments|parser.SkipObjectResolution)
+		f, err := parser.ParseFile(p.fset, path, data, parser.ParseComments)
 		if err != nil {
 			return nil, err
 		}
